@@ -44,7 +44,8 @@ def rand_faces(rng, n, kind):
             md.update(a=ka / 10.0, b=kb / 10.0, ab=(ka, kb))
         return md
     if kind == 'morphed':
-        return dict(kind='morphed', n=n, L=float(rng.choice([1.0, 2.0])), x0=0.0, morph=str(rng.choice(['sq', 'exp', 'lin'])))
+        # (origins other than 0: the morphing applies to the shifted uniform faces; all three laws are increasing on x > -1)
+        return dict(kind='morphed', n=n, L=float(rng.choice([1.0, 2.0])), x0=float(rng.choice([0.0, 0.0, 0.5, 1.25, -0.5])), morph=str(rng.choice(['sq', 'exp', 'lin'])))
     w = 10.0 ** rng.uniform(-1, 0.5, n)
     v = rng.random()
     if v < 0.12:      # almost uniform: cells differing by 1e-9 .. 1e-4 relative (a "uniform mesh" shortcut must not fire)
@@ -171,10 +172,15 @@ PER = {'type': 'per'}      # ONE dictionary object for every periodic side of ev
 def bc_for_impl(bc):
     if bc.get('type') == 'per' and len(bc) == 1:
         return PER
-    b = dict(bc)
-    if 'prim' in b:
-        b['prim'] = [np.array([x]) if False else x for x in b['prim']]
-    return b
+    # one dictionary OBJECT per boundary-condition content, shared by both ends, by every discretisation and by the mirror /
+    # rescaled twins of a problem (bc = {'type': 'outsub', 'p': 1.}; fvm(..., bcL=bcin, bcR=bc) ... fvm(..., bcL=bc, bcR=bcin))
+    key = repr(sorted((k, repr(v)) for k, v in bc.items()))
+    if key not in _BCPOOL:
+        _BCPOOL[key] = dict(bc)
+    return _BCPOOL[key]
+
+
+_BCPOOL = {}
 
 
 def used_scheme(num, msh):
@@ -216,7 +222,8 @@ def build(cfg):
                               bcL=bc_for_impl(cfg['bcL']), bcR=bc_for_impl(cfg['bcR']))
     W = [np.array(w, dtype=float) for w in cfg['prim']]
     Q = mod.prim2cons(W)
-    f = impl.field.fdata(mod, msh, [np.array(x, dtype=float) for x in Q])
+    # 'intdata': whole-number states of a scalar model handed over in an integer array (only the space operator is evaluated on it)
+    f = impl.field.fdata(mod, msh, [np.array(x, dtype=np.int64 if cfg.get('intdata') else float) for x in Q])
     return mod, msh, disc, f
 
 
